@@ -235,6 +235,8 @@ def run(ctx, rep):
     nullable_array_rule(P, rep, 'R-C05-13')
     from .C18 import nofollow_probe_rule
     nofollow_probe_rule(P, rep, 'R-C05-11', ('state_check_process',), 'check / fix of recorded empty files, hardlinks and directories', forbidden={'stat', 'stat64', 'access'})
+    from .C18 import selection_effects_rule
+    selection_effects_rule(P, rep, 'R-C05-16')
 
     # ---- R-C05-8 a per-file flag that steers a write decision is read only after the site that computes it
     rep.rule('R-C05-8', 'state_check_process: every test of a file flag computed by the first-open detection (FILE_IS_UNSYNCED) is reached only after that detection in the same disk iteration (a --filter-error/-e fix never acts on a stale flag)', 1)
